@@ -65,6 +65,14 @@ pub assume_specification<T, U, F: FnOnce(T) -> U>[ Option::<T>::map_or ](o: Opti
 pub assume_specification<T: Default>[ std::mem::take ](x: &mut T) -> (r: T) ensures r == *old(x);
 // core's reflexive `impl<T> From<T> for T`
 pub assume_specification<T>[ <T as From<T>>::from ](t: T) -> (r: T) ensures r == t;
+pub assume_specification<T: Clone>[ <[T]>::to_vec ](s: &[T]) -> (r: Vec<T>) ensures r@.len() == s@.len();
+// the UTF-8 bytes of a string (an uninterpreted function of the string; Rust caps every allocation at isize::MAX bytes)
+pub uninterp spec fn str_bytes(s: String) -> VSeq<u8>;
+pub assume_specification[ String::as_bytes ](s: &String) -> (r: &[u8]) ensures r@ == str_bytes(*s), r@.len() <= isize::MAX;
+// panics if rhs == 0 or on MIN % -1 (std docs); the result is the non-negative remainder
+pub assume_specification[ isize::rem_euclid ](x: isize, rhs: isize) -> (r: isize)
+    requires rhs != 0, !(x == isize::MIN && rhs == -1)
+    ensures r as int == (x as int) % (rhs as int);
 pub assume_specification[ i64::checked_abs ](x: i64) -> (r: Option<i64>)
     ensures r == (if x == i64::MIN { None::<i64> } else if x < 0 { Some((-x) as i64) } else { Some(x) });
 pub assume_specification[ i64::signum ](x: i64) -> (r: i64)
